@@ -491,4 +491,10 @@ def r20_8(ctx):
     ctx.floor(n, 1, "theme-stack changes in Console checked against the get_style cache")
 
 
-RULES = [r20_1, r20_2, r20_3, r20_4, r20_5, r20_6, r20_7, r20_8]
+def r20_9(ctx):
+    from .c06 import r6_5
+    from .common import borrow
+    borrow(ctx, r6_5, "R6.5", "R20.9", " [Theme.config writes str(style) and from_file parses it back: the group masks of Style.__str__ cover every attribute bit, or a theme written to a file reads back with an attribute missing]")
+
+
+RULES = [r20_1, r20_2, r20_3, r20_4, r20_5, r20_6, r20_7, r20_8, r20_9]
